@@ -564,7 +564,8 @@ def fireTransition (k : TaskKey) (idx : Nat) (ec : EvalCtx) (acc : TransAcc) (e 
     let newIdx := c.st.contexts.length
     let outIdxs := if newCtx.isEmpty then r.ctxsIn else r.ctxsIn ++ [newIdx]
     (if newCtx.isEmpty then pure ()
-     else modifySt fun st => ({ st with contexts := st.contexts ++ [newCtx] } : WState).updateRec idx
+     else modifySt fun st => ({ st with contexts := st.contexts ++ [newCtx],
+                                        pubLog := st.pubLog ++ [(idx, tid, newIdx)] } : WState).updateRec idx
         fun r => { r with ctxsOut := some (tid, newIdx) } : M Unit)
     stageNext k idx e outIdxs acc
 
